@@ -32,6 +32,28 @@ class Trace:
     pass
 
 
+class ManualLeasePublisher:
+    """Lease publisher for the responder: publishes DefinedLease(count, ttl) when an operation says so."""
+
+    def __init__(self, world):
+        self.world = world
+        self.subscriber = None
+        self.published = []
+
+    def subscribe(self, subscriber):
+        self.subscriber = subscriber
+        self.world.ev('s', 'lease_subscribed')
+
+    def publish(self, count, ttl_ms):
+        from rsocket.lease import DefinedLease
+        if self.subscriber is None:
+            return False
+        self.world.ev('s', 'lease_published', count=count, ttl_ms=ttl_ms)
+        self.published.append((count, ttl_ms))
+        self.subscriber.on_next(DefinedLease(maximum_request_count=count, maximum_lease_time=timedelta(milliseconds=ttl_ms)))
+        return True
+
+
 class Scenario:
     def __init__(self, world, program):
         self.world = world
@@ -322,11 +344,19 @@ async def _execute(loop, program, observe=None):
     ka = timedelta(seconds=cfg.get('ka', 100000.0))
     life = timedelta(seconds=cfg.get('life', 1000000.0))
     common = dict(keep_alive_period=ka, max_lifetime_period=life)
+    lease = cfg.get('lease')
+    skw, ckw = {}, {}
+    lease_pub = None
+    if lease:
+        lease_pub = ManualLeasePublisher(world)
+        skw['lease_publisher'] = lease_pub
+        ckw['honor_lease'] = True
+        ckw['request_queue_size'] = lease.get('queue', 0)
     server = RSocketServer(conn.transport['s'], handler_factory=make_handler_class(scn, 's'),
-                           fragment_size_bytes=frag[1], **common)
+                           fragment_size_bytes=frag[1], **common, **skw)
     client = RSocketClient(single_transport_provider(conn.transport['c']),
                            handler_factory=make_handler_class(scn, 'c'),
-                           fragment_size_bytes=frag[0], **common)
+                           fragment_size_bytes=frag[0], **common, **ckw)
     scn.sock = {'c': client, 's': server}
     cs = cfg.get('connect')
     if cs:
@@ -405,6 +435,9 @@ async def _execute(loop, program, observe=None):
                     s = st['sub'].get(dirn)
                     if s is not None:
                         s.cancel()
+        elif name == 'lease':
+            if lease_pub is not None:
+                lease_pub.publish(op[1], op[2])
         elif name == 'cut':
             state['faulted'] = True
             world.ev('net', 'cut', mode=op[1])
@@ -424,6 +457,9 @@ async def _execute(loop, program, observe=None):
         conn.unblock('s')
         quiet = False
         stale = 0
+        if lease_pub is not None and program.get('heal_lease', True):
+            await simnet.run_until_quiet(loop, [conn])
+            lease_pub.publish(1000000, 100000000)
         for rnd in range(400):
             ok = await simnet.run_until_quiet(loop, [conn])
             before = world.seq
